@@ -196,7 +196,7 @@ def main(tier):
         core = core[seed() % 2 :: 2]
         comp = comp[seed() % 2 :: 2] + comp[-5:]
     core = core + comp
-    n = 50 if tier == "quick" else 800
+    n = 120 if tier == "quick" else 800
     rand = gen_dynamic.generate(seed() * 6007 + 19, n, "choose")
     cases = core + rand
     rows = c12.run_batch(ck, cases, need_actions=["Setup", "BehaviorResume", "Pick", "Finish"], run_real=False)
